@@ -58,6 +58,16 @@ def main():
         rc1, o1, e1 = sh(["/venv/bin/python", demo], cwd=wt, timeout=600)
         res["demo_patched_rc"] = rc1
         res["demo_patched_tail"] = (o1 + e1)[-400:]
+        if a.no_suite:
+            # keep the verdict of the last run that did include the suite
+            try:
+                prev = json.load(open(os.path.join(seed, "result.json")))
+                if prev.get("suite_passes") is not None:
+                    res["suite_passes"] = prev["suite_passes"]
+                    res["suite_tail"] = prev.get("suite_tail")
+                    res["suite_checked_at"] = prev.get("suite_checked_at") or prev.get("at")
+            except Exception:   # noqa
+                pass
         if not a.no_suite:
             rc2, o2, e2 = sh([os.path.join(ROOT, "tools", "baseline.sh"), wt], timeout=1800)
             res["suite_passes"] = (rc2 == 0)
